@@ -236,9 +236,9 @@ def engine_choice(ctx):
         ctx.check(ok, R, f'direct-engine#{n_dr}', ctx.where(fa, e),
                   found=[(T.show(c), p) for c, p in e.guards], expected='constructed only under not fill_lower',
                   reason='square storage must be read as stored')
-    if n_fl < 2 or n_dr < 2:
+    if n_fl < 1 or n_dr < 1:
         ctx.unrec(R, 'engine-sites', ctx.where(fa), found=f'{n_fl} fill-lower, {n_dr} direct',
-                  reason='expected the sparse and the dense branch to construct one engine each per mode')
+                  reason='expected the matrix output to be produced by a fill-lower engine and by a direct engine')
     # Cooler.matrix._slice forwards self._is_symm_upper as fill_lower
     fs = ctx.fa('cooler.api.Cooler.matrix.<locals>._slice')
     mc = calls(fs, 'cooler.api.matrix')
